@@ -123,21 +123,16 @@ Definition known_K4m (m : option color) : bool :=
    together with its `hsla_format` flag *)
 Definition known_K5m (m : option color) : bool :=
   match m with Some (CHsla _) | Some (CHwba _) => true | _ => false end.
-(* K6 (F33): an rgb colour with red = green > blue: max_min_largest takes blue for the maximum *)
-Definition k6_rgba (c : rgba) : bool := feq (r_red c) (r_green c) && flt (r_blue c) (r_red c).
-Definition known_K6m (m : option color) : bool :=
-  match m with Some (CRgba x) => k6_rgba x | _ => false end.
 Definition corr (c : case) : Z := corr_with (model_color c) c.
 Definition known_K4 (c : case) : bool := known_K4m (model_color c).
 Definition known_K5 (c : case) : bool := known_K5m (model_color c).
-Definition known_K6 (c : case) : bool := known_K6m (model_color c).
 
 Definition b2z (b : bool) : Z := if b then 1 else 0.
 Definition opt_clause (c : case) (f : report -> bool) : Z :=
   match c_impl c with Some p => b2z (f p) | None => 0 end.
 
-(* [corr; rgb; hue; sl; wb; K1; K2; K3; K4; K5; K6] (the equality answers are judged from c_eqs directly) *)
+(* [corr; rgb; hue; sl; wb; K1; K2; K3; K4; K5] (the equality answers are judged from c_eqs directly) *)
 Definition run (c : case) : list Z :=
   let m := model_color c in
   [ corr_with m c; opt_clause c clause_rgb; opt_clause c clause_hue; opt_clause c clause_sl; opt_clause c clause_wb;
-    b2z (known_K1 c); b2z (known_K2 c); b2z (known_K3 c); b2z (known_K4m m); b2z (known_K5m m); b2z (known_K6m m) ].
+    b2z (known_K1 c); b2z (known_K2 c); b2z (known_K3 c); b2z (known_K4m m); b2z (known_K5m m) ].
